@@ -214,9 +214,29 @@ def extract(dev=None):
     f["raSize"] = size_linear(b, "addressSize", "UpdateRefundAddress")
     m = need(r"byteVecToAddress!\(byteVecSlice!\(\s*payload\s*,\s*(\d+)\s*,\s*payloadSize\s*\)\)", b, "address slice in UpdateRefundAddress")
     f["raAddrFrom"] = int(m.group(1))
+    # the node side: the only bound the admin server applies to a guardian-set upgrade (adminserver.go: len(Guardians) > common.MaxGuardianCount)
+    f["maxGuardianCount"] = go_const(vlib.gofold(GSET), "MaxGuardianCount", GSET)
     f["feeConv"] = f.pop("feeValueConv")
     f["clConv"] = f.pop("clValueConv")
     return f
+
+
+GSET = "node/pkg/common/guardianset.go"
+
+
+def go_const(src, name, where):
+    """`const <name> = <integer constant expression>` of a Go file (literals, + - * / << >>, parentheses)."""
+    m = need(r"^\s*(?:const\s+)?%s\s*(?:\w+\s*)?=\s*([^\n/]+?)\s*(?://[^\n]*)?$" % name, src, "const %s in %s" % (name, where), re.M)
+    expr = m.group(1).strip()
+    if not re.fullmatch(r"[0-9a-fA-FxX_\s+\-*/<>()]+", expr):
+        raise Missing("const %s in %s is not an integer constant expression: %s" % (name, where, expr))
+    try:
+        v = eval(expr.replace("_", "").replace("/", "//"), {"__builtins__": {}}, {})
+    except Exception:
+        raise Missing("const %s in %s: cannot evaluate %s" % (name, where, expr))
+    if not isinstance(v, int) or v < 0:
+        raise Missing("const %s in %s: %s is not a natural number" % (name, where, expr))
+    return v
 
 
 def pair(p):
@@ -286,6 +306,8 @@ def render(f):
     a("def raLenConv : Nat := %d" % f["raLenConv"])
     a("def raSizeBase : Nat := %d\ndef raSizeStride : Nat := %d" % f["raSize"])
     a("def raAddrFrom : Nat := %d" % f["raAddrFrom"])
+    a("/-- node/pkg/common/guardianset.go `MaxGuardianCount`: the bound adminGuardianSetUpgradeToVAA applies to the number of guardians -/")
+    a("def maxGuardianCount : Nat := %d" % f["maxGuardianCount"])
     a("")
     a("end Whv.Gen.C15")
     return "\n".join(L) + "\n"
@@ -460,7 +482,10 @@ def run(ctx):
         "each of the nine kinds (+ unset oneof) with field values across and beyond the wire ranges (chain ids and target chains up to "
         "2^32-1, consistency level up to 2^32-1, set index incl. 2^32-2 / 2^32-1, module names of 0/31/32/33/64+ bytes incl. multi-byte "
         "runes, hex fields valid / one byte short or long / odd length / one non-hex character / 0x prefix, guardian lists of 0..30 keys "
-        "with duplicates, case variants, zero address, malformed keys), fixed boundary sweeps, 65535/65536/65537 sequences and refund "
+        "with duplicates, case variants, zero address, malformed keys; `gsz`: 18 / 19 / 20 / 21 / 32 / 127..129 / 254 / 255 / 256 / 257 / 300 / 511..513 / 1024 "
+        "distinct guardians, and 19 / 20 / 255 / 256 / 257 with the last key repeating the first - the payload's guardian count is one byte, and the "
+        "Spec reads it at the contract's slice whatever limit common.MaxGuardianCount is (clause guardian-count-lossy; the limit itself is "
+        "extracted into Whv.Gen.C15.maxGuardianCount and tied by c15_admin_bound_fits_count_byte)), fixed boundary sweeps, 65535/65536/65537 sequences and refund "
         "address bytes, and 2-5-message requests mixing valid and invalid messages. distinct_nontrivial = cases on which the model "
         "predicted the exact status code, message, injected VAAs and the Spec (parser-side decoding at the extracted Ralph offsets, "
         "envelope, digest = Keccak^2(body), purity) held on the implementation's own results. Failing-input search for contract-side "
